@@ -47,7 +47,9 @@ C17_QUICK = set()
 
 Q, T = "quick", "thorough"
 FMT_STUBS = ["alloc::fmt::format -> empty String (error messages are outside the claim)",
-             "std::backtrace::Backtrace::capture -> disabled"]
+             "std::backtrace::Backtrace::capture -> disabled",
+             "core::slice::memchr::{memchr_aligned, memrchr} -> naive reference loops with the same contract (the library versions do "
+             "pointer-alignment arithmetic on addresses CBMC treats as symbolic)"]
 
 
 def H(name, file, props, tiers=(Q, T), timeout=600, **meta):
@@ -115,17 +117,17 @@ H("c14_default_path_text", "path", ["C14", "C17"], timeout=1200,
 
 # =========================================================================================== C15
 K256 = ["k256/ecdsa: Signature::from_scalars, ScalarPrimitive range check (real code, compiled into the query)"]
-H("c15_parse_130", "signature", ["C15", "C17"], timeout=1500,
+H("c15_parse_130", "signature", ["C15", "C17"], timeout=1800, mem_gb=20,
   functions=["account::signature::Signature::from_str", "hex::decode_to_slice", "ecdsa::Signature::from_scalars",
              "Signature::{r,s,y_parity,v}"],
   inputs="every ASCII string of exactly 130 bytes", bound="length 130, ASCII only",
   spec="Ok iff 130 hex digits (either case), v in {1b,1c}, 0 < r,s < n; then r/s/parity equal the digits")
-H("c15_parse_132", "signature", ["C15", "C17"], timeout=1500,
+H("c15_parse_132", "signature", ["C15", "C17"], timeout=1800, mem_gb=20,
   functions=["account::signature::Signature::from_str", "hex::decode_to_slice", "ecdsa::Signature::from_scalars",
              "Signature::{r,s,y_parity,v}"],
   inputs="every ASCII string of exactly 132 bytes", bound="length 132, ASCII only",
   spec="Ok iff '0x' + 130 hex digits, v in {1b,1c}, 0 < r,s < n (the text Display prints parses back)")
-H("c15_parse_other_lengths", "signature", ["C15", "C17"], timeout=900,
+H("c15_parse_other_lengths", "signature", ["C15", "C17"], timeout=1800, mem_gb=20,
   functions=["account::signature::Signature::from_str", "hex::decode_to_slice"],
   inputs="every ASCII string of length 0..=140 other than 130 and 132", bound="length <= 140",
   spec="always Err, never a panic")
@@ -287,7 +289,7 @@ for nm, kind, tiers in [("c06_legacy_unsigned_nochain", "legacy", (T,)), ("c06_l
                         ("c06_legacy_signed_nochain", "legacy", (T,)), ("c06_legacy_signed_chain", "legacy", (Q, T)),
                         ("c06_eip2930_unsigned", "eip2930", (T,)), ("c06_eip2930_signed", "eip2930", (Q, T)),
                         ("c06_eip1559_unsigned", "eip1559", (Q, T)), ("c06_eip1559_signed", "eip1559", (Q, T))]:
-    H(nm, "transaction", ["C06", "C11", "C17"], tiers=tiers, timeout=1800, mem_gb=14,
+    H(nm, "transaction", ["C06", "C11", "C17"], tiers=tiers, timeout=2400, mem_gb=(40 if nm in ("c06_eip2930_signed", "c06_eip1559_signed", "c06_eip1559_unsigned") else 14),
       functions=["transaction::" + C06_SPECS[kind][0], "transaction::rlp::{iter,list,len} (real)",
                  "account::Signature::{v,r,s,y_parity} (real)"],
       inputs="every U256 field: all 2^256 values; recipient present/absent with 20 symbolic bytes; 3 symbolic data bytes; "
@@ -296,7 +298,7 @@ for nm, kind, tiers in [("c06_legacy_unsigned_nochain", "legacy", (T,)), ("c06_l
       stubs=LEAF_STUBS, trusted=KECCAK_TRUST, spec=C06_SPECS[kind][1])
 for nm, tiers in [("c06_signing_message_legacy_nochain", (T,)), ("c06_signing_message_legacy_chain", (Q, T)),
                   ("c06_signing_message_eip2930", (T,)), ("c06_signing_message_eip1559", (Q, T))]:
-    H(nm, "transaction", ["C06", "C11", "C17"], tiers=tiers, timeout=1800, mem_gb=14,
+    H(nm, "transaction", ["C06", "C11", "C17"], tiers=tiers, timeout=2400, mem_gb=28,
       functions=["transaction::Transaction::signing_message", "transaction::Transaction::rlp_encode (dispatch)"],
       inputs="all field values symbolic; transaction kind fixed per query", bound="as the structure harnesses",
       stubs=LEAF_STUBS, trusted=KECCAK_TRUST,
@@ -315,17 +317,18 @@ for nm, tiers in [("c06_alist_empty", (Q, T))]:
 TD_STUB = ["typeddata::Types::type_definition (HashMap look-up) -> look-up by name in a harness-owned table, same contract",
            "std::hash::RandomState::new -> fixed keys (the real map stays empty)"]
 for n, tiers in [(0, (Q, T)), (1, (Q, T)), (2, (Q, T)), (3, (Q, T)), (4, (T,)), (5, (T,)), (6, (T,))]:
-    H(f"c20_domain_{n}", "typeddata", ["C20", "C17"], tiers=tiers, timeout=1800, mem_gb=14,
+    H(f"c20_domain_{n}", "typeddata", ["C20", "C17"], tiers=tiers, timeout=1800, mem_gb=14, cbmc_args="--unwindset memcmp.0:40",
       functions=["typeddata::TypedDataBlob::verify_domain_type", "MemberKind::eq"],
       inputs=f"{n} declared members; each name a symbolic choice of the 5 standard names or a foreign one, each type a symbolic "
              f"choice of 8 kinds: all {6**n * 8**n} declarations", bound=f"{n} members",
       stubs=TD_STUB, spec="Ok iff non-empty, names strictly increasing in the standard order, every type the standard one")
-H("c20_domain_missing", "typeddata", ["C20", "C09", "C17"], timeout=900,
+H("c20_domain_missing", "typeddata", ["C20", "C09", "C17"], timeout=900, cbmc_args="--unwindset memcmp.0:40",
   functions=["typeddata::TypedDataBlob::verify_domain_type"], inputs="type table without EIP712Domain", bound="-",
   stubs=TD_STUB, spec="Err")
-for nm, tiers in [("c08_encode_type_small", (Q, T)), ("c08_encode_type_arrays", (Q, T)), ("c08_encode_type_a", (T,)),
-                  ("c08_encode_type_b", (T,)), ("c08_encode_type_p", (Q, T))]:
+for nm, tiers in [("c08_encode_type_small", (Q, T)), ("c08_encode_type_arrays_mutual", (Q, T)), ("c08_encode_type_arrays_self", (Q, T)),
+                  ("c08_encode_type_a", (T,)), ("c08_encode_type_b", (T,)), ("c08_encode_type_p", (Q, T))]:
     H(nm, "typeddata", ["C08", "C17"], tiers=tiers, timeout=3000, mem_gb=20,
+      auto_unwind={"memcmp": 40, "fmt": 14, "btree": 14, "bytes_eq_sym": 8, "push_def": 8, "check_encode_type": 8, "alloc": 14, "str": 14},
       functions=["typeddata::Types::encode_type", "TypeDefinition::struct_references", "MemberKind::struct_reference",
                  "Display for TypeDefinition / Member / MemberKind", "BTreeMap insert/contains_key/values (real)"],
       inputs="struct types A, B, P with two members each, every member a symbolic choice of {bool, A, B, P} "
@@ -354,7 +357,7 @@ H("c09_int_range", "typeddata", ["C09", "C08", "C17"], timeout=1500,
   functions=["typeddata::Types::encode_value (Int arm)"],
   inputs="value: all 2^256 two's complement values; width N = 8k for k in 1..=32", bound="none", stubs=TD_STUB + PARSER_STUB,
   spec="Ok iff -2^(N-1) <= value < 2^(N-1); word = sign-extended two's complement")
-H("c08_atom_bool", "typeddata", ["C08", "C09", "C17"], timeout=1500,
+H("c08_atom_bool", "typeddata", ["C08", "C09", "C17"], timeout=1500, cbmc_args="--unwindset memcmp.0:40",
   functions=["typeddata::Types::encode_value (Bool arm)", "bool::deserialize(serde_json::Value)"],
   inputs="JSON true/false/null/string/number", bound="-", stubs=TD_STUB, spec="true -> 1, false -> 0, other JSON kinds Err")
 BYTES_LEAF = ["serialization::bytes::deserialize -> returns the harness' byte string or an error (decided on its own by c13_bytes_N)"]
@@ -378,7 +381,7 @@ H("c08_atom_string", "typeddata", ["C08", "C17"], timeout=1800, mem_gb=14,
   stubs=TD_STUB + KECCAK_STUB, trusted=KECCAK_TRUST, spec="word = Keccak-256 of the UTF-8 text")
 for nm, tiers in [("c09_array_fixed2_len1", (Q, T)), ("c09_array_fixed2_len2", (T,)), ("c09_array_fixed2_len3", (T,)),
                   ("c08_array_dyn_len0", (T,)), ("c08_array_dyn_len2", (Q, T))]:
-    H(nm, "typeddata", ["C09", "C08", "C17"], tiers=tiers, timeout=1800, mem_gb=14,
+    H(nm, "typeddata", ["C09", "C08", "C17"], tiers=tiers, timeout=1800, mem_gb=14, cbmc_args="--unwindset memcmp.0:40",
       functions=["typeddata::Types::encode_value (Array arm, Bool elements)"],
       inputs="bool[2] / bool[] with 0..3 symbolic elements", bound="<= 3 elements",
       stubs=TD_STUB + KECCAK_STUB, trusted=KECCAK_TRUST,
@@ -396,18 +399,18 @@ H("c17_kind_64_suffixes", "typeddata", ["C17"], tiers=(T,), timeout=2400, mem_gb
 
 # =========================================================================================== C13
 NUMFN = ["serialization::num::deserialize", "ethnum::serde::permissive::deserialize (real)", "serde_json::Value as Deserializer"]
-H("c13_number_u64", "serialization", ["C13", "C09", "C17"], timeout=900, functions=NUMFN,
+H("c13_number_u64", "serialization", ["C13", "C09", "C17"], timeout=1800, functions=NUMFN, cbmc_args="--unwindset memcmp.0:40",
   inputs="JSON number from any u64", bound="none", spec="Ok(exactly that integer)")
-H("c13_number_i64", "serialization", ["C13", "C09", "C17"], timeout=900, functions=NUMFN,
+H("c13_number_i64", "serialization", ["C13", "C09", "C17"], timeout=1800, functions=NUMFN, cbmc_args="--unwindset memcmp.0:40",
   inputs="JSON number from any i64", bound="none", spec="v >= 0: Ok(v); v < 0: Err (never 2^256 - |v|)")
-H("c13_number_f64", "serialization", ["C13", "C09", "C17"], timeout=1500, functions=NUMFN,
+H("c13_number_f64", "serialization", ["C13", "C09", "C17"], timeout=1800, functions=NUMFN, cbmc_args="--unwindset memcmp.0:40",
   inputs="JSON number from any finite f64", bound="none",
   spec="integral in [0, 2^53): Ok(exact value); negative, fractional or >= 2^53: never accepted with another value")
-H("c13_numopt", "serialization", ["C13", "C11", "C17"], timeout=900,
+H("c13_numopt", "serialization", ["C13", "C11", "C17"], timeout=1800, cbmc_args="--unwindset memcmp.0:40",
   functions=["serialization::numopt::deserialize"], inputs="null / any i64 number / bool", bound="-",
   spec="null -> None; number as c13_number_i64; other kinds Err")
 for n, tiers in [(0, (Q, T)), (1, (Q, T)), (2, (Q, T)), (3, (Q, T)), (4, (T,)), (5, (T,)), (6, (T,))]:
-    H(f"c13_numstr_{n}", "serialization", ["C13", "C09", "C17"], tiers=tiers, timeout=1800, mem_gb=14, functions=NUMFN,
+    H(f"c13_numstr_{n}", "serialization", ["C13", "C09", "C17"], tiers=tiers, timeout=1800, mem_gb=14, functions=NUMFN, cbmc_args="--unwindset memcmp.0:40",
       inputs=f"every ASCII string of exactly {n} bytes", bound=f"{n} bytes, ASCII",
       spec="decimal digits or 0x + hex digits: Ok(exact value); empty, '-', fraction, exponent, bad digit, bare 0x: Err; "
            "leading '+' is don't-care")
@@ -416,19 +419,19 @@ for d, tiers in [(64, (T,)), (65, (T,))]:
       inputs=f"0x + {d} symbolic hex digits (either case)", bound=f"{d} digits",
       spec="64 digits: Ok(exact value); 65 digits: Ok iff the first digit is 0 (value < 2^256), else Err")
 for n, tiers in [(0, (Q, T)), (1, (T,)), (2, (Q, T)), (3, (Q, T)), (4, (Q, T)), (5, (T,)), (6, (T,)), (8, (T,))]:
-    H(f"c13_bytes_{n}", "serialization", ["C13", "C17"], tiers=tiers, timeout=1800, mem_gb=14,
+    H(f"c13_bytes_{n}", "serialization", ["C13", "C17"], tiers=tiers, timeout=1800, mem_gb=14, cbmc_args="--unwindset memcmp.0:40",
       functions=["serialization::bytes::deserialize", "hex::decode"],
       inputs=f"every ASCII string of exactly {n} bytes", bound=f"{n} bytes, ASCII",
       spec="Ok iff 0x + even number of hex digits (either case); value = those bytes")
-H("c13_bytes_wrong_kind", "serialization", ["C13", "C17"], timeout=900,
+H("c13_bytes_wrong_kind", "serialization", ["C13", "C17"], timeout=1800, cbmc_args="--unwindset memcmp.0:40",
   functions=["serialization::bytes::deserialize"], inputs="null / number / bool", bound="-", spec="Err")
 for nm, tiers in [("c13_slot_31", (Q, T)), ("c13_slot_32", (Q, T)), ("c13_slot_33", (T,)), ("c13_slot_0", (T,))]:
-    H(nm, "serialization", ["C13", "C17"], tiers=tiers, timeout=1800, mem_gb=14,
+    H(nm, "serialization", ["C13", "C17"], tiers=tiers, timeout=1800, mem_gb=14, cbmc_args="--unwindset memcmp.0:40",
       functions=["serialization::bytearray::deserialize::<_, 32>", "hex::decode_to_slice"],
       inputs="0x + hex of L symbolic bytes in lower or upper case", bound="L in {0,31,32,33}",
       spec="storage key: Ok iff exactly 32 bytes; value unchanged")
 for l, tiers in [(19, (T,)), (20, (Q, T)), (21, (T,))]:
-    H(f"c13_address_{l}", "serialization", ["C13", "C17"], tiers=tiers, timeout=1800, mem_gb=14,
+    H(f"c13_address_{l}", "serialization", ["C13", "C17"], tiers=tiers, timeout=1800, mem_gb=14, cbmc_args="--unwindset memcmp.0:40",
       functions=["<Option<ethaddr::Address> as Deserialize>::deserialize(serde_json::Value)"],
       inputs=f"hex of {l} symbolic bytes with and without 0x", bound=f"{l} bytes",
       spec="recipient: Ok iff 0x + exactly 20 bytes; value unchanged")
@@ -442,6 +445,7 @@ HDK_STUBS = ["sha2::sha512::compress512 -> uninterpreted: logs every 128-byte bl
 HDK_TRUST = ["HMAC-SHA512 (hmac, sha2) and secp256k1 point multiplication (k256) compute the standard functions; "
              "hmac/sha2 chain the compression states as specified"]
 for nm, tiers, to in [("c03_master_s16", (T,), 3000), ("c03_master_s32", (T,), 3000), ("c03_master_s64", (Q, T), 3000),
+                      ("c03_master_s65", (Q, T), 3000), ("c03_master_s96", (T,), 3000),
                       ("c03_d1_hardened_s64", (Q, T), 5400), ("c03_d1_normal_s64", (Q, T), 5400),
                       ("c03_d1_any_s16", (T,), 5400), ("c03_d2_any_s64", (T,), 9000)]:
     H(nm, "hdk", ["C03", "C17"], tiers=tiers, timeout=to, mem_gb=24, files=["path"],
@@ -486,6 +490,7 @@ H("c19_filter_unicode_ws", "cmd", ["X19"], timeout=1800, mem_gb=14,
 for nm, tiers in [("c08_kind_width_uint", (Q, T)), ("c08_kind_width_int", (Q, T)), ("c08_kind_width_bytes", (Q, T)),
                   ("c08_kind_width_uint_array", (T,)), ("c08_kind_width_bytes_array", (Q, T))]:
     H(nm, "typeddata", ["C08", "C09", "C20", "C17"], tiers=tiers, timeout=1800, mem_gb=9,
+      auto_unwind={"memcmp": 40, "from_ascii": 6, "check_width": 6, "memchr": 12, "pattern": 12, "str": 12, "chars": 12},
       functions=["typeddata::MemberKind::from_str"],
       inputs="concrete prefix uint/int/bytes + 1..=3 symbolic decimal digits (every width 0..=999 in every spelling) [+ '[]']",
       bound="three digits",
@@ -504,12 +509,55 @@ for nm in ["empty", "ascii", "accent", "fullwidth", "ligature", "enclosed", "ast
       spec="one PBKDF2 call: password = canonical phrase of the stored entropy, salt = 'mnemonic' || UTF-8(NFKD(passphrase)), 2048 rounds, "
            "HMAC-SHA512, 64 bytes returned unchanged")
 
-H("c15_spec_text", "signature", ["C15", "C17"], timeout=1800, mem_gb=9,
+H("c15_spec_text", "signature", ["C15", "C17"], timeout=1800, mem_gb=20,
   functions=["account::signature::Signature::from_str", "hex::decode_to_slice", "ecdsa::Signature::from_scalars",
              "Signature::{r,s,y_parity}"],
   inputs="r, s: all scalars in (0, n); parity; with/without 0x; lower/upper-case digits; text rendered by the harness",
   bound="none beyond the text shape the property defines",
   spec="the printed form parses back to an equal signature")
+
+for nm, inp, spec in [("c13_prim_u64", "any u64", "Ok(exactly that integer)"),
+                      ("c13_prim_i64", "any i64", "v >= 0: Ok(v); v < 0: Err (never 2^256 - |v|)"),
+                      ("c13_prim_f64", "any finite f64", "integral in [0, 2^53): Ok(exact value); negative, fractional or >= 2^53: never "
+                                                         "accepted with another value")]:
+    H(nm, "serialization", ["C13", "C09", "C17"], timeout=1800, mem_gb=9, cbmc_args="--unwindset memcmp.0:40",
+      functions=["serialization::num::deserialize::<serde::de::value::{U64,I64,F64}Deserializer<serde_json::Error>> (NOT the "
+                 "production instantiation D = serde_json::Value, which is c13_number_*)",
+                 "ethnum::serde::permissive::deserialize::<U256, serde_json::Value> (real)"],
+      inputs="number from " + inp, bound="none on the value", spec=spec,
+      assumes=["serde_json::Value as a Deserializer hands a JSON number to the visitor as visit_u64/visit_i64/visit_f64 exactly like "
+               "serde's primitive deserializers do (dependency behaviour; decided for D = Value only in the thorough tier)"])
+
+H("c04_address_slicing", "account", ["C04", "C17"], timeout=1500, mem_gb=9,
+  functions=["account::PrivateKey::address"],
+  inputs="the 65-byte uncompressed encoding: tag 0x04 + 64 symbolic bytes (all 2^512 coordinate pairs, on the curve or not)",
+  bound="none",
+  stubs=["account::public::PublicKey::encode_uncompressed -> returns the harness' 65 bytes (its own contract is decided by c04_address)",
+         "k256 mul / to_affine as in c04_address"] + KECCAK_STUB, trusted=KECCAK_TRUST,
+  spec="exactly one Keccak over exactly bytes 1..65; address = digest[12..32]")
+
+for nm in ["c08_encode_type_names_p", "c08_encode_type_names_a", "c08_encode_type_names_b"]:
+    H(nm, "typeddata", ["C08", "C17"], tiers=(T,), timeout=3000, mem_gb=20,
+      auto_unwind={"memcmp": 40, "fmt": 14, "btree": 14, "alloc": 14, "str": 14},
+      functions=["typeddata::Types::encode_type", "TypeDefinition::struct_references", "Display for TypeDefinition / Member / MemberKind",
+                 "BTreeMap insert/contains_key/values (real)"],
+      inputs="struct types A, B, P with two members each; every member is Struct(<symbolic byte in {A,B,P,Z}>); Z is a leaf type",
+      bound="4 type names, 2 members per type: all 4^6 reference graphs; primary type in the harness name",
+      stubs=TD_STUB,
+      spec="encodeType = primary definition followed by every transitively referenced struct type exactly once in name order, "
+           "the primary never repeated")
+
+for nm, inp, spec in [("c13_prim_f64_integral", "f = k as f64 for every integer k in (-2^53, 2^53)", "k >= 0: Ok(k); k < 0: Err"),
+                      ("c13_prim_f64_fraction", "f = k + 0.5 for every integer k in (-2^51, 2^51)", "always Err")]:
+    H(nm, "serialization", ["C13", "C09", "C17"], tiers=(T,), timeout=2400, mem_gb=24, cbmc_args="--unwindset memcmp.0:40",
+      functions=["serialization::num::deserialize::<serde::de::value::F64Deserializer<serde_json::Error>> (not the production "
+                 "instantiation D = serde_json::Value)", "ethnum::serde::permissive::deserialize (real, incl. its f64 range/fraction checks)"],
+      inputs=inp, bound="floats of that form", spec=spec)
+
+H("c13_prim_f64_small", "serialization", ["C13", "C09", "C17"], tiers=(T,), timeout=2400, mem_gb=14, cbmc_args="--unwindset memcmp.0:40",
+  functions=["serialization::num::deserialize::<serde::de::value::F64Deserializer<serde_json::Error>> (not the production instantiation)"],
+  inputs="f = +k or -k as f64 for every k in 0..=255", bound="|f| <= 255, integral",
+  spec="non-negative: Ok(k); negative (except -0.0): Err")
 
 # ================================================================================================ tiers
 # The quick tier is restricted to queries that were measured to finish in seconds to a few minutes on the pinned tree
@@ -518,8 +566,8 @@ QUICK_SET = set("""
 c01_len_table c01_unpack_12 c01_unpack_15 c01_unpack_24 c01_layout_12 c01_to_phrase
 c01_count_00 c01_count_11 c01_count_13 c01_count_14 c01_count_17 c01_count_23 c01_count_25
 c12_random c12_get_entropy
-c03_master_s64
-c04_new_00 c04_new_23 c04_new_31 c04_new_32 c04_new_33 c04_address
+c03_master_s64 c03_master_s65
+c04_new_00 c04_new_23 c04_new_31 c04_new_32 c04_new_33 c04_address c04_address_slicing
 c07_len c07_bytes_000 c07_bytes_001 c07_bytes_002 c07_bytes_055 c07_bytes_056 c07_bytes_057 c07_bytes_128 c07_bytes_symlen
 c07_uint c07_list_0_0_0 c07_list_20_20_15 c07_list_21_20_15 c07_iter_1_33_21 c07_list_empty c07_iter_100_100_56 c06_alist_empty
 c06_legacy_unsigned_nochain c06_legacy_unsigned_chain c06_legacy_signed_nochain c06_legacy_signed_chain c06_eip2930_unsigned
@@ -527,17 +575,34 @@ c06_signing_message_legacy_nochain c06_sig_accessors c11_v c11_v_kf_d7
 c08_final_digest c08_atom_string c08_atom_bytes_dynamic c09_uint_range c09_int_range
 c09_bytes1_len0 c09_bytes1_len1 c09_bytes1_len2 c09_bytes4_len3 c09_bytes31_len32 c09_bytes32_len31 c09_bytes32_len32 c09_bytes32_len33
 c10_digest_000 c10_digest_009 c10_digest_010 c10_digest_symlen
-c13_numstr_0
-c14_component
+c13_numstr_0 c13_prim_u64 c13_prim_i64 c13_number_u64
+c14_component c14_path_ascii_2 c14_path_ascii_3
 c15_parse_130 c15_parse_132 c15_parse_other_lengths c15_spec_text
 c18_prefix_5
-c20_domain_0 c20_domain_1 c20_domain_2 c20_domain_missing
+c20_domain_0 c20_domain_1 c20_domain_2 c20_domain_3 c20_domain_missing
+""".split())
+# The thorough tier adds deeper queries that were measured to finish under their caps. Every other registered harness
+# is a documented *attempt* (tier "attempt": `bin/check <id> --tier attempt`), not part of any MANIFEST command: on the
+# unchanged tree it ends inconclusive (timeout / memory cap), and an inconclusive check is not a verdict.
+THOROUGH_EXTRA = set("""
+c01_unpack_18 c01_unpack_21 c01_count_01 c01_count_02 c01_count_03 c01_count_06 c01_count_09 c01_count_10 c01_count_16
+c01_count_19 c01_count_20 c01_count_22 c01_count_26 c01_count_27 c01_count_30 c01_count_33 c01_count_36 c01_count_40
+c03_master_s16 c03_master_s32 c03_master_s96 c03_d1_hardened_s64 c03_d1_normal_s64
+c04_new_01 c04_new_16 c04_new_24 c04_new_40 c04_new_64
+c06_signing_message_legacy_chain
+c07_bytes_003 c07_bytes_020 c07_bytes_032 c07_bytes_033 c07_bytes_054 c07_bytes_064 c07_bytes_100 c07_bytes_255 c07_bytes_256
+c07_bytes_257 c07_list_1_0_2 c07_list_33_33_33 c07_iter_0_0_0
+c09_bytes4_len4 c09_bytes4_len5 c09_bytes31_len31
+c18_prefix_7
+c20_domain_4 c20_domain_5
 """.split())
 for _h in HARNESSES:
-    if _h["name"] not in QUICK_SET:
-        _h["tiers"] = [t for t in _h["tiers"] if t != Q] or [T]
-    elif Q not in _h["tiers"]:
-        _h["tiers"] = [Q] + list(_h["tiers"])
+    _t = []
+    if _h["name"] in QUICK_SET:
+        _t.append(Q)
+    if _h["name"] in QUICK_SET or _h["name"] in THOROUGH_EXTRA:
+        _t.append(T)
+    _h["tiers"] = _t or ["attempt"]
 
 C17_QUICK = set("""
 c01_len_table c01_count_14 c01_count_23 c01_count_25 c01_unpack_12 c12_random c04_new_32 c07_len c07_bytes_symlen
